@@ -389,7 +389,8 @@ BUILDER = {
         "exh": {"quick": [("C15_Docs3", 2, 2), ("C15_DocsDeep", 2, 2, "C15_RangeDeep")],
                 "thorough": [("C15_Docs3", 2, 3), ("C15_DocsDeep", 2, 2, "C15_RangeDeep")]},    # (("C15_Docs", 2, 2): > 1 h)
         "mutations": [{"switch": "DeepWrapRefills", "docs": "C15_DocsM", "stages": (2, 2), "expect": ["Inv_C15"]},
-                      {"mutation": "PruneAlways", "docs": "C15_Docs3", "stages": (2, 2), "expect": ["Inv_C15"]}],
+                      {"mutation": "PruneAlways", "docs": "C15_Docs3", "stages": (2, 2), "expect": ["Inv_C15"]},
+                      {"mutation": "PropagateIgnoresDefaultDelete", "docs": "C15_DocsDeep", "range": "C15_RangeDeep", "stages": (2, 2), "expect": ["Inv_C15"]}],
         "gen": _gen_c15, "random": {"quick": 400, "thorough": 2000}, "max_stages": 4,
         "nontrivial": _c04_nontrivial,
         "rule": "A: every 2(3)-stage history of the C15 universes (priority, !del, !merge, lists), each replayed as written and again "
